@@ -258,6 +258,16 @@ Finisher(u) ==
      sa \in {<<1>>, <<2>>}, oa \in {0, 1}, k \in 1..3, sg \in {<<1>>, <<2>>}, sb \in {<<1>>, <<3>>},
      c2 \in {<<>>, <<Buf("linear")>>}, rd \in {"sink", "none", "short"}, rev \in BOOLEAN}
 
+(* finam's TimeTrigger between a pull-based generator and a consumer (the library's remedy    *)
+(* for "pull-only source followed by an element that needs pushes"): metadata flows through   *)
+(* its transfer rules, data through its initial pull and its updates                          *)
+Trigger(u) ==
+  {MkCfg(<<PullC(<<>>), TimeC(st, 0, TRUE, <<Lk(1, <<>>)>>) @@ [relay |-> TRUE], TimeC(sc, oc, ip, <<Lk(2, ch)>>)>>
+         \o (IF two THEN <<TimeC(<<2>>, 0, FALSE, <<Lk(2, <<Buf("next")>>)>>)>> ELSE <<>>),
+         IF two THEN ord4 ELSE ord3, 6, "dag", "trigger") :
+     st \in Steps1, sc \in StepSeqsS, oc \in {0, 1}, ip \in BOOLEAN, ch \in ChainsUpTo1(Atoms), two \in BOOLEAN,
+     ord3 \in Perms3, ord4 \in {<<1, 2, 3, 4>>, <<4, 3, 2, 1>>}}
+
 (* growth beyond the listed properties: push-based consumers (CallbackInput) next to a       *)
 (* time-stepped reader of the same output, directly and behind adapters                      *)
 SinkFan(u) ==
@@ -323,12 +333,13 @@ CfgSpace(f) ==
     [] f = "repeatinteg" -> RepeatInteg(0)
     [] f = "sinkfan"    -> SinkFan(0)
     [] f = "finisher"   -> Finisher(0)
+    [] f = "trigger"    -> Trigger(0)
     [] f = "lateidle"   -> LateIdle(0)
     [] f = "ringfanin"  -> RingFanIn(0)
     [] f = "ring2tail"  -> Ring2Tail(0)
 
 AllFamilies == {"pair", "pairL", "pairXL", "pair3", "chain3t", "chain3p", "fanin2", "fanin1",
                 "fanout", "pullfanout", "diamondt", "diamondp", "pullchain2", "ring2", "ring3",
-                "ring4", "pullring", "pullringtail", "ringbreak", "wsum", "pulltwice", "ring2tail", "fanoutshared", "repeatinteg", "sinkfan", "lateidle", "ringfanin", "fanout3shared", "chain3d", "wsumback", "finisher"}
+                "ring4", "pullring", "pullringtail", "ringbreak", "wsum", "pulltwice", "ring2tail", "fanoutshared", "repeatinteg", "sinkfan", "lateidle", "ringfanin", "fanout3shared", "chain3d", "wsumback", "finisher", "trigger"}
 
 =============================================================================
